@@ -503,6 +503,14 @@ pub fn run(ctx: &mut Ctx) {
     });
     ctx.require(&r, &["returned"]);
 
+    // hidden state: a call that panics only because of what an earlier call left behind (a panic is an outcome that
+    // differs from the lone-call baseline); this profile only
+    if !ctx.child {
+        crate::histpairs::pairwise(ctx, "C03", "compile_and_format", crate::histpairs::calls_format());
+        crate::histpairs::pairwise(ctx, "C03", "parse", crate::histpairs::calls_parse());
+        crate::histpairs::pairwise(ctx, "C03", "field_accessors_and_constructors", crate::histpairs::calls_accessors());
+    }
+
     // ---- the other profile, in a child process
     if p == "fast" && !ctx.child && ctx.replay.is_none() {
         match std::env::var("VERIF_CHECKED_BIN") {
